@@ -253,6 +253,8 @@ pub fn prop() -> Prop {
             "the location of a result is found by pointer identity in the caller's document, independently of the path string",
         ],
         subs: vec![
+            // the wide flat arrays and objects of C01's box: locations by address, paths literally
+            Sub { name: "large-flat-paths", kind: Kind::Exhaustive(crate::props::c01::large_flat) },
             Sub { name: "random-routes", kind: Kind::Random { f: random_routes, quick: 200_000, thorough: 4_000_000, len: 400 } },
             Sub { name: "parallel-first-touch", kind: Kind::Exhaustive(parallel_first_touch) },
             Sub { name: "random-all-nodes", kind: Kind::Random { f: random_all_nodes, quick: 50_000, thorough: 1_000_000, len: 300 } },
